@@ -109,6 +109,71 @@ def add_prints_and_faults(rng, ns):
     return False
 
 
+def twin_experiment(ctx, pydsdl, rng, ns, base, paths, call, clos, case):
+    """
+    A second, unreferenced file that defines the same full name and version as a TARGET: next to it under another file name
+    (fixed port-ID prefix, legacy extension) for read_files - where either file of the pair may be the one requested - or in a
+    lookup directory named like the target's root for read_namespace.  Nothing refers to that name, so the file that was not
+    requested is outside the closure: whatever its text is replaced by, the outcome and the print log must stay the same.
+    """
+    defs = ns["defs"]
+    referenced = {r.get("target") for i in clos for r in defs[i]["refs"]}
+    if call["api"] == "read_files":
+        cand = [i for i in call["targets"] if i not in referenced and defs[i]["ext"] == ".dsdl"]
+    else:
+        cand = [i for i in clos if defs[i]["root"] == 0 and i not in referenced]
+    if not cand:
+        return
+    ti = rng.choice(cand)
+    t = defs[ti]
+    ns2, call2, paths2 = ns, dict(call), list(paths)
+    stem = "%s.%d.%d" % (t["short"], t["ver"][0], t["ver"][1])
+    if call["api"] == "read_files":
+        name = rng.choice([("7003." + stem if t.get("port") is None else stem) + ".dsdl", ("%d." % t["port"] if t.get("port") is not None else "") + stem + ".uavcan"])
+        twin = paths[ti].parent / name
+        swap = rng.random() < 0.5
+    else:
+        nm = ns["roots"][0]["name"]
+        ns2 = dict(ns, roots=ns["roots"] + [{"dir": "twinlk/" + nm, "name": nm}])
+        call2["lookups"] = list(call["lookups"]) + [len(ns2["roots"]) - 1]
+        name = rng.choice([paths[ti].name, ("7003." + stem if t.get("port") is None else stem) + ".dsdl", stem + ".uavcan"])
+        twin = (base / "twinlk" / nm).joinpath(*t["ns"]) / name
+        swap = False
+    if twin.exists():
+        return
+    twin.parent.mkdir(parents=True, exist_ok=True)
+    original = paths[ti].read_text()
+    requested, other = (twin, paths[ti]) if swap else (paths[ti], twin)
+    if swap:
+        paths2[ti] = twin
+    try:
+        twin.write_text("uint64 PV_ID = 424242\nuint16 twin_marker\n@sealed\n")
+        ctx.mon("baseline")
+        sig1, prints1, _ = perform(pydsdl, ns2, base, paths2, call2)
+        benign = other.read_text()
+        for kind in rng.sample(["garbage", "failing-assert", "print", "bad-width", "syntax-error", "other-extent", "missing-sealed"], 3):
+            other.write_text(REPLACEMENTS[kind], encoding="utf-8")
+            ctx.mon("replacement")
+            sig2, prints2, _ = perform(pydsdl, ns2, base, paths2, call2)
+            c2 = dict(case, kind="target-twin/" + kind, victim=os.path.relpath(str(other), base), requested=os.path.relpath(str(requested), base), call=call2)
+            if sig2 != sig1:
+                ctx.violation("C19/outcome-changed/target-twin", "%s: %s was requested; replacing its unreferenced namesake %s by %s changed the outcome: %r -> %r" % (
+                    call["api"], c2["requested"], c2["victim"], kind, str(sig1)[:300], str(sig2)[:300]), c2)
+            ctx.mon("print-log-compare")
+            if sorted(prints2) != sorted(prints1):
+                ctx.violation("C19/print-log-changed/target-twin", "print log changed: %r -> %r" % (prints1[:5], prints2[:5]), c2)
+            if any("VICTIM-WAS-EVALUATED" in x for _p, _l, x in prints2):
+                ctx.violation("C19/victim-evaluated", "@print of the unreferenced namesake %s was delivered" % c2["victim"], c2)
+            other.write_text(benign, encoding="utf-8")
+            ctx.case((GN.signature(ns), ti, "target-twin", kind, call["api"], swap, name), True,
+                     classes=["api-" + call["api"], "replacement-target-twin", "twin-" + ("requested-is-the-added-file" if swap else "requested-is-the-original-file")])
+    finally:
+        paths[ti].write_text(original, encoding="utf-8")
+        if twin.exists():
+            twin.unlink()
+        shutil.rmtree(base / "twinlk", ignore_errors=True)
+
+
 def run_case(ctx, pydsdl, seed, nrep, workdir):
     rng = random.Random(seed)
     ns = GN.gen_namespace(rng, n_roots=rng.choice([2, 2, 3]), deprecated=rng.choice([0.0, 0.2, 0.5]))
@@ -148,6 +213,8 @@ def run_case(ctx, pydsdl, seed, nrep, workdir):
         if base_sig[0] == "foreign":
             ctx.violation("C19/foreign-exception", "baseline: %r" % (base_sig,), case)
             return ns, 0
+        if rng.random() < 0.5:
+            twin_experiment(ctx, pydsdl, rng, ns, base, paths, call, clos, case)
         if not outside:
             return ns, 0
         opened_victims = 0
